@@ -30,6 +30,9 @@ class PythonTask(object):
         if not callable(func):
             raise ValueError('task function not callable')
 
+        if kwargs is None:
+            kwargs = dict()
+
         task = {'func'  : serialize_obj(func),
                 'args'  : args,
                 'kwargs': kwargs}
